@@ -149,6 +149,30 @@ func (s *c06State) ts(tok string) (*timestamppb.Timestamp, bool) {
 	return &timestamppb.Timestamp{Seconds: sec, Nanos: int32(ns)}, true
 }
 
+// absolute unix nanoseconds as a protobuf timestamp
+func (s *c06State) tsRaw(n int64) *timestamppb.Timestamp {
+	sec := n / 1e9
+	ns := n % 1e9
+	if ns < 0 {
+		sec--
+		ns += 1e9
+	}
+	return &timestamppb.Timestamp{Seconds: sec, Nanos: int32(ns)}
+}
+
+// created/updated times are stamped by the server for some requests (increment and patch
+// metadata): a value inside the wall-clock span of the case so far is such a stamp (the
+// generators never supply a client time that close to the case base)
+func (s *c06State) tsOutStamp(t *timestamppb.Timestamp) string {
+	if t != nil {
+		n := t.Seconds*1e9 + int64(t.Nanos)
+		if n >= s.base && n <= time.Now().UnixNano()+int64(time.Millisecond) {
+			return "T"
+		}
+	}
+	return s.tsOut(t)
+}
+
 func (s *c06State) tsOut(t *timestamppb.Timestamp) string {
 	if t == nil {
 		return ""
@@ -321,7 +345,7 @@ func (s *c06State) rec(t *hydrapb.Treasure) string {
 	if t == nil || !t.IsExist {
 		return "-"
 	}
-	return strings.Join([]string{c06Val(t), s.tsOut(t.CreatedAt), t.GetCreatedBy(), s.tsOut(t.UpdatedAt), t.GetUpdatedBy(), s.tsOut(t.ExpiredAt)}, "|")
+	return strings.Join([]string{c06Val(t), s.tsOutStamp(t.CreatedAt), t.GetCreatedBy(), s.tsOutStamp(t.UpdatedAt), t.GetUpdatedBy(), s.tsOut(t.ExpiredAt)}, "|")
 }
 
 func c06Status(c hydrapb.Status_Code) string {
